@@ -80,7 +80,8 @@ Definition wf_sig (s : sig) : bool := order_ok 0 (map pkd s) && nodupb (map pnam
 
 (* ---------------------------------------------------------------------------------------------- *)
 (* ParametersSpec<V>: param_kinds, param_names, names (SymbolMap<u32>), indices (DefParamIndices). *)
-Inductive pkindI := Required | Defaulted (v : V) | Args | KWargs.   (* ParameterKind; `Optional` is native-only *)
+Inductive pkindI := Required | Defaulted (v : V) | Args | KWargs
+                   | Optional.   (* ParameterKind; `Optional` is native-only: an unfilled slot stays None *)
 
 Record pspec := mkSpec {
   ps_kinds : list pkindI;
@@ -128,6 +129,142 @@ Definition build_spec (s : sig) : pspec :=
      ps_npos := length (filter is_positional s);
      ps_args := find_kind VarArgs 0 s;
      ps_kwargs := find_kind VarKw 0 s |}.
+
+Definition is_some_nat (o : option nat) : bool := match o with Some _ => true | None => false end.
+Fixpoint assoc_nat (n : name) (l : list (name * nat)) : option nat :=
+  match l with
+  | [] => None
+  | (k, v) :: r => if Nat.eqb n k then Some v else assoc_nat n r
+  end.
+
+(* ---------------------------------------------------------------------------------------------- *)
+(* ParametersSpecBuilder (spec.rs), one method call at a time.  `None` = an `assert!` of the method fired (panic). *)
+Inductive style := SPosOnly | SPosOrNamed | SNamedOnly | SNoMore.        (* enum CurrentParameterStyle, derived Ord *)
+Definition style_rank (s : style) : nat :=
+  match s with SPosOnly => 0 | SPosOrNamed => 1 | SNamedOnly => 2 | SNoMore => 3 end.
+
+Record bstate := mkB {
+  b_params : list (name * pkindI);      (* params: Vec<(String, ParameterKind<V>)> *)
+  b_names : list (name * nat);          (* names: SymbolMap<u32>, in insertion order *)
+  b_npos_only : nat;                    (* positional_only *)
+  b_npos : nat;                         (* positional *)
+  b_style : style;                      (* current_style *)
+  b_args : option nat;
+  b_kwargs : option nat }.
+
+(* ParametersSpec::with_capacity *)
+Definition b_init : bstate := mkB [] [] 0 0 SPosOnly None None.
+
+(* The methods.  `args()` / `kwargs()` push the literals "*args" / "**kwargs" as the name; the model passes the
+   name in (steps_of passes the declared name): param_names is only ever read at the index of a Required
+   parameter (Missing ... parameter) or at an index taken from `names` (RepeatedArg), never at these entries. *)
+Inductive bstep :=
+| BRequired (n : name) | BOptional (n : name) | BDefaulted (n : name) (v : V)
+| BArgs (n : name) | BKwargs (n : name)
+| BNoMorePosOnly            (* no_more_positional_only_args *)
+| BNoMorePos.               (* no_more_positional_args *)
+
+(* fn add(&mut self, name, val): val is never Args / KWargs (first assert) because only required / optional /
+   defaulted call it *)
+Definition b_add (b : bstate) (n : name) (k : pkindI) : option bstate :=
+  if negb (style_rank (b_style b) <? 3) then None                 (* assert!(current_style < NoMore) *)
+  else if is_some_nat (b_kwargs b) then None                      (* assert!(kwargs.is_none()) *)
+  else
+    let i := length (b_params b) in
+    match (match b_style b with
+           | SPosOnly => Some (b_names b)
+           | _ => match assoc_nat n (b_names b) with
+                  | Some _ => None                                (* assert!(old.is_none(), "Repeated parameter") *)
+                  | None => Some (b_names b ++ [(n, i)])
+                  end
+           end) with
+    | None => None
+    | Some names' =>
+        let upd := negb (is_some_nat (b_args b)) && negb (style_rank (b_style b) =? 2) in
+        Some (mkB (b_params b ++ [(n, k)]) names'
+                  (if upd && (style_rank (b_style b) =? 0) then i + 1 else b_npos_only b)
+                  (if upd then i + 1 else b_npos b)
+                  (b_style b) (b_args b) (b_kwargs b))
+    end.
+
+Definition builder_step (ob : option bstate) (st : bstep) : option bstate :=
+  match ob with
+  | None => None
+  | Some b =>
+    match st with
+    | BRequired n => b_add b n Required
+    | BOptional n => b_add b n Optional
+    | BDefaulted n v => b_add b n (Defaulted v)
+    | BArgs n =>
+        if is_some_nat (b_args b) then None                                   (* assert!(args.is_none()) *)
+        else if negb (style_rank (b_style b) <? 2) then None                   (* assert!(current_style < NamedOnly) *)
+        else if is_some_nat (b_kwargs b) then None                             (* assert!(kwargs.is_none()) *)
+        else Some (mkB (b_params b ++ [(n, Args)]) (b_names b) (b_npos_only b) (b_npos b) SNamedOnly
+                       (Some (length (b_params b))) (b_kwargs b))
+    | BNoMorePosOnly =>
+        if style_rank (b_style b) =? 0                                         (* assert_eq!(current_style, PosOnly) *)
+        then Some (mkB (b_params b) (b_names b) (b_npos_only b) (b_npos b) SPosOrNamed (b_args b) (b_kwargs b))
+        else None
+    | BNoMorePos =>
+        if is_some_nat (b_args b) then None
+        else if negb (style_rank (b_style b) <? 2) then None
+        else if is_some_nat (b_kwargs b) then None
+        else Some (mkB (b_params b) (b_names b) (b_npos_only b) (b_npos b) SNamedOnly (b_args b) (b_kwargs b))
+    | BKwargs n =>
+        if is_some_nat (b_kwargs b) then None                                  (* assert!(kwargs.is_none()) *)
+        else Some (mkB (b_params b ++ [(n, KWargs)]) (b_names b) (b_npos_only b) (b_npos b) SNoMore
+                       (b_args b) (Some (length (b_params b))))
+    end
+  end.
+
+(* fn finish(self): assert!(positional_only <= positional); params.unzip() *)
+Definition b_finish (ob : option bstate) : option pspec :=
+  match ob with
+  | None => None
+  | Some b =>
+      if b_npos_only b <=? b_npos b
+      then Some (mkSpec (map snd (b_params b)) (map fst (b_params b)) (b_names b) (b_npos_only b) (b_npos b)
+                        (b_args b) (b_kwargs b))
+      else None
+  end.
+
+Definition run_builder (steps : list bstep) : option pspec := b_finish (fold_left builder_step steps (Some b_init)).
+
+(* How a `def` drives the builder: InstrDefImpl::run_with_args (instr_impl.rs).  npo / np are
+   def_data.params.indices.{num_positional_only, num_positional} (DefParams::unpack). *)
+Definition step_of_param (p : param) : bstep :=
+  match pkd p with
+  | VarArgs => BArgs (pname p)
+  | VarKw => BKwargs (pname p)
+  | _ => match pdef p with Some v => BDefaulted (pname p) v | None => BRequired (pname p) end
+  end.
+Fixpoint steps_from (npo np i : nat) (s : sig) : list bstep :=
+  match s with
+  | [] => []
+  | p :: r =>
+      (if (i =? npo) && negb (is_variadic p) then [BNoMorePosOnly] else [])
+      ++ (if (i =? np) && negb (is_variadic p) then [BNoMorePos] else [])
+      ++ step_of_param p :: steps_from npo np (S i) r
+  end.
+Definition steps_of (s : sig) : list bstep :=
+  steps_from (length (filter is_posonly s)) (length (filter is_positional s)) 0 s.
+
+(* The order discipline the asserts enforce, as a four-phase automaton over method calls
+   (0 positional-only, 1 positional-or-named, 2 named-only, 3 after **kwargs) plus distinctness of the
+   names added outside phase 0:   P* [/ P*] [{args | star} P*] [kwargs]  *)
+Fixpoint steps_ok (ph : nat) (seen : list name) (l : list bstep) : bool :=
+  match l with
+  | [] => true
+  | st :: r =>
+      match st with
+      | BRequired n | BOptional n | BDefaulted n _ =>
+          (ph <? 3) && (if ph =? 0 then steps_ok ph seen r
+                        else negb (existsb (Nat.eqb n) seen) && steps_ok ph (seen ++ [n]) r)
+      | BNoMorePosOnly => (ph =? 0) && steps_ok 1 seen r
+      | BArgs _ | BNoMorePos => (ph <? 2) && steps_ok 2 seen r
+      | BKwargs _ => (ph <? 3) && steps_ok 3 seen r
+      end
+  end.
 
 (* ---------------------------------------------------------------------------------------------- *)
 (* slots: &mut [Option<Value>] *)
@@ -300,10 +437,103 @@ Definition collect_inline (ps : pspec) (c : call) : result slots :=
 Definition collect (s : sig) (c : call) : result slots := collect_inline (build_spec s) c.
 Definition collect_via_slow (s : sig) (c : call) : result slots := collect_slow (build_spec s) c.
 
+(* ---------------------------------------------------------------------------------------------- *)
+(* The same binder on calls whose `*seq` / `**map` operands may have the wrong type (arguments.rs
+   FunctionError::{ArgsArrayIsNotIterable, KwArgsIsNotDict}); `call` above is the well-typed fragment. *)
+Inductive star_arg := StarSeq (vs : list V) | StarNotIterable.    (* param_args.iterate(heap) is Err *)
+Inductive kw_arg := KwDict (m : list (key * V)) | KwNotDict.      (* DictRef::from_value(param_kwargs) is None *)
+Record xcall := mkXCall {
+  x_pos : list V;
+  x_named : list (name * V);
+  x_star : option star_arg;
+  x_kw : option kw_arg }.
+
+Inductive xerr := XErr (e : err) | XArgsNotIterable | XKwNotDict.
+Inductive xresult (A : Type) := XOk (a : A) | XFail (e : xerr).
+Arguments XOk {A} a.
+Arguments XFail {A} e.
+Definition lift_x {A : Type} (r : result A) : xresult A :=
+  match r with Ok a => XOk a | Err e => XFail (XErr e) end.
+
+(* the end of collect_slow: defaults, then the *args / **kwargs slots *)
+Definition collect_tail (ps : pspec) (next3 : nat) (star3 : list V) (s5 : slots) (kw5 : lazy_kwargs) : result slots :=
+  match fill_defaults ps (length (ps_kinds ps) - next3) next3 s5 with
+  | Err e => Err e
+  | Ok s6 =>
+    match (match ps_args ps with
+           | Some a => Ok (upd s6 a (Some (STuple star3)))
+           | None => if nonempty star3 then Err (EExtraPos (length star3)) else Ok s6
+           end) with
+    | Err e => Err e
+    | Ok s7 =>
+      match ps_kwargs ps with
+      | Some k => Ok (upd s7 k (Some (SDict (kw_list kw5))))
+      | None => match kw5 with
+                | Some m => Err (EExtraNamed (map fst m))
+                | None => Ok s7
+                end
+      end
+    end
+  end.
+
+(* collect_slow with the two type errors at the places the code raises them: `*seq` is iterated after the
+   named arguments and before the positional/named clash check; `**map` is unpacked after that check *)
+Definition collect_slow_x (ps : pspec) (c : xcall) : xresult slots :=
+  let len := length (ps_kinds ps) in
+  let s0 := repeat None len in
+  let '(s1, next1, star1) :=
+    if length (x_pos c) <=? ps_npos ps
+    then (zip_fill (x_pos c) s0, length (x_pos c), [])
+    else fill_pos (ps_npos ps) (x_pos c) s0 0 [] in
+  let '(s2, kw2, low) := do_named ps (x_named c) s1 None None in
+  match (match x_star c with
+         | None => XOk (s2, next1, star1)
+         | Some (StarSeq vs) => XOk (fill_pos (ps_npos ps) vs s2 next1 star1)
+         | Some StarNotIterable => XFail XArgsNotIterable
+         end) with
+  | XFail e => XFail e
+  | XOk (s3, next3, star3) =>
+    match clash low next3 with
+    | Some l => XFail (XErr (ERepeated (nth l (ps_names ps) 0)))
+    | None =>
+      match (match x_kw c with
+             | None => XOk (s3, kw2)
+             | Some (KwDict m) => lift_x (do_kwmap ps m s3 kw2)
+             | Some KwNotDict => XFail XKwNotDict
+             end) with
+      | XFail e => XFail e
+      | XOk (s5, kw5) => lift_x (collect_tail ps next3 star3 s5 kw5)
+      end
+    end
+  end.
+
+Definition fast_guard_x (ps : pspec) (c : xcall) : bool :=
+  (length (x_pos c) =? ps_npos ps) && (length (x_pos c) =? length (ps_kinds ps))
+  && negb (nonempty (x_named c)) && negb (is_some (x_star c)) && negb (is_some (x_kw c)).
+Definition collect_inline_x (ps : pspec) (c : xcall) : xresult slots :=
+  if fast_guard_x ps c then XOk (zip_fill (x_pos c) (repeat None (length (ps_kinds ps)))) else collect_slow_x ps c.
+Definition collect_x (s : sig) (c : xcall) : xresult slots := collect_inline_x (build_spec s) c.
+
+(* the well-typed fragment *)
+Definition x_typed (c : xcall) : bool :=
+  match x_star c, x_kw c with
+  | Some StarNotIterable, _ => false
+  | _, Some KwNotDict => false
+  | _, _ => true
+  end.
+Definition call_of_x (c : xcall) : call :=
+  mkCall (x_pos c) (x_named c)
+         (match x_star c with Some (StarSeq vs) => Some vs | _ => None end)
+         (match x_kw c with Some (KwDict m) => Some m | _ => None end).
+Definition x_of_call (c : call) : xcall :=
+  mkXCall (c_pos c) (c_named c) (option_map StarSeq (c_star c)) (option_map KwDict (c_kw c)).
+
 (* What is observable: the exact contents of the parameter slots, or failure. *)
 Inductive outcome := OkSlots (l : slots) | Failed.
 Definition outcome_of (r : result slots) : outcome :=
   match r with Ok s => OkSlots s | Err _ => Failed end.
+Definition outcome_of_x (r : xresult slots) : outcome :=
+  match r with XOk s => OkSlots s | XFail _ => Failed end.
 
 End Bind.
 
@@ -318,5 +548,20 @@ Arguments Required {V}.
 Arguments Defaulted {V}.
 Arguments Args {V}.
 Arguments KWargs {V}.
+Arguments Optional {V}.
+Arguments BRequired {V}.
+Arguments BOptional {V}.
+Arguments BArgs {V}.
+Arguments BKwargs {V}.
+Arguments BNoMorePosOnly {V}.
+Arguments BNoMorePos {V}.
+Arguments b_init {V}.
+Arguments XOk {V A} a.
+Arguments XFail {V A} e.
+Arguments StarSeq {V}.
+Arguments StarNotIterable {V}.
+Arguments KwDict {V}.
+Arguments KwNotDict {V}.
+Arguments mkXCall {V}.
 Arguments OkSlots {V}.
 Arguments Failed {V}.
